@@ -10,7 +10,12 @@ extended ACL has been evaluated against the object's header.
    them with requests of every class: valid (control), unsigned, wrongly signed (Put: also a bad 2nd chunk),
    missing / malformed body, expired / tampered / wrong-verb session token, expired / tampered bearer token,
    denied by basic ACL, denied by eACL on the request, denied by eACL at header time (local copy that shows
-   up after the request-time evaluation, copy fetched from another container node), maintenance on.
+   up after the request-time evaluation, copy fetched from another container node) crossed with every request
+   flag that changes the reply shape (GET payload_only / raw / range / extended range and combinations, HEAD raw /
+   main_only, RANGE raw), maintenance on; signature classes also depend on the transport: a second front of the
+   same server reports the peer as TLS-authenticated (what pkg/network/peerauth leaves after mTLS): unsigned TTL=1
+   is the documented exemption (control, must be served), a present-but-invalid verification header with TTL=1, and
+   an unsigned TTL>1 request must be refused with no effect.
 3. TLC judges the recorded events with the C29 invariants (Strict = FALSE: a false invariant on a recorded
    trace is a VIOLATION) and checks that the trace is a behaviour of the pipeline model (Strict = TRUE; a
    rejection there alone = model drift, exit 2)."""
@@ -21,7 +26,7 @@ import rpc_util
 import vkit
 
 LEVEL = "exploration"
-CLS_FIELDS = ["sig", "maint", "body", "tok", "basic", "ereq", "ehdr", "cnr", "obj", "ttl", "as"]
+CLS_FIELDS = ["sig", "maint", "body", "tok", "basic", "ereq", "ehdr", "cnr", "obj", "ttl", "as", "flags", "peer"]
 CLIENT_OPS = {"Get", "Head", "GetRange", "Put", "Delete", "SearchV2"}
 
 
@@ -67,7 +72,7 @@ def run(ck):
     ck.setcov("calls_per_method_and_category", cats)
     if not ck.replay:
         # anti-vacuity (exit 2, never a verdict)
-        need = {"valid", "signature:none", "signature:bad", "body:missing", "token:expired", "token:badsig", "token:bearer_expired",
+        need = {"valid", "signature:none", "signature:bad", "signature:forged", "body:missing", "token:expired", "token:badsig", "token:bearer_expired",
                 "basic_acl", "eacl_request", "maintenance"}
         for m in CLIENT_OPS:
             miss = need - set(cats.get(m, {}))
@@ -86,6 +91,21 @@ def run(ck):
         if not hdr_deny or not hdr_allow:
             raise vkit.Infra("header-time eACL stage is not exercised (deny=%d allow-with-payload=%d)" % (len(hdr_deny), len(hdr_allow)))
         ck.setcov("header_time_denials", len(hdr_deny))
+        # transport-dependent signature classes and reply-shape flags (anti-vacuity)
+        for m in CLIENT_OPS:
+            if not any(c["m"] == m and c["cls"]["peer"] == "mtls" and c["cls"]["sig"] == "forged" and c["cls"]["ttl"] == 1 for c in calls):
+                raise vkit.Infra("class authenticated peer x TTL=1 x present-but-invalid verification header missing for %s" % m)
+        exempt = [c for c in calls if c["cls"]["sig"] == "exempt" and c["cls"]["basic"] and not c["cls"]["maint"]]
+        if not exempt or any(c["events"][-1]["code"] >= 1024 or not any(e["ev"] == "Eff" for e in c["events"]) for c in exempt):
+            raise vkit.Infra("the fake mTLS transport is not recognised as an authenticated peer (unsigned TTL=1 request of a container node is not served)")
+        shapes = {}
+        for c in hdr_deny:
+            shapes.setdefault(c["m"], set()).add((c["cls"]["flags"], c["cls"]["obj"]))
+        ck.setcov("header_time_denial_shapes", {m: sorted("%s@%s" % (f or "plain", o) for f, o in v) for m, v in shapes.items()})
+        for f in ("payload_only", "raw", "range", "xrange", "payload_only+range"):
+            for o in ("remote", "late"):
+                if (f, o) not in shapes.get("Get", ()):
+                    raise vkit.Infra("header-time denial not exercised for GET flags=%s object=%s" % (f, o))
 
     findings = rpc_util.judge(ck, "TraceObjectRPC", "TraceObjectRPC_c29.cfg", "TraceObjectRPC_strict.cfg", calls, tag="c29")
     for f in findings:
